@@ -48,6 +48,16 @@ def leaf_values(info, rng, dim, zero, use_mag):
         pars[p.name] = float(dflt.get(p.name, p.default))
     pd = sorted(P.pd_1d) if dim == "1d" else sorted(p.name for p in P.call_parameters if p.polydisperse)
     rng.shuffle(pd)
+    # components with vector parameters: prefer dispersity on a later vector element
+    vec = [nm for nm in pd if any(q.length > 1 and nm.startswith(q.id) and nm[len(q.id):].isdigit()
+                                  and int(nm[len(q.id):]) >= 2 for q in P.kernel_parameters)]
+    if vec and rng.random() < 0.7:
+        ctl = {q.length_control for q in P.kernel_parameters if q.length_control}
+        nmax = min([int(dflt.get(c, 1)) for c in ctl] or [1])
+        live = [nm for nm in vec if int("".join(ch for ch in nm if ch.isdigit()) or 1) <= max(nmax, 2)]
+        if live:
+            pick = rng.choice(live)
+            pd = [pick] + [nm for nm in pd if nm != pick]
     for name in pd[:rng.choice([0, 1, 1, 2])]:
         rel = P[name].relative_pd
         pars[name + "_pd"] = rng.choice([0.1, 0.25]) if rel else rng.choice([5.0, 15.0])
